@@ -22,6 +22,14 @@ cp $DEMO $DEMOPKG/ 2>/dev/null
 echo "== module $MOD demo $DEMONAME in $DEMOPKG"
 ( cd $MOD && go vet ./... >/dev/null 2>&1; unshare -rn sh -c "ip link set lo up; go test -vet=off -count=1 ./... 2>&1" | grep -v "^ok\|no test files" | grep -v "$DEMOALL" | grep "^--- FAIL\|^FAIL" | grep -v "TestValidFlags" | head ) > /tmp/seed_base.txt
 BASE_FAIL_OTHER=$(grep -c "^--- FAIL" /tmp/seed_base.txt)
+# the repository's own test_grpc / deadline tests are timing-sensitive on a loaded machine: a failure
+# there is re-run (up to twice); only a test that fails every time counts as broken by the change
+for retry in 1 2; do
+  [ "$BASE_FAIL_OTHER" -gt 0 ] || break
+  ( cd $MOD && unshare -rn sh -c "ip link set lo up; go test -vet=off -count=1 ./... 2>&1" | grep -v "^ok\|no test files" | grep -v "$DEMOALL" | grep "^--- FAIL\|^FAIL" | grep -v "TestValidFlags" | head ) > /tmp/seed_base_retry.txt
+  N=$(grep -c "^--- FAIL" /tmp/seed_base_retry.txt)
+  if [ "$N" -lt "$BASE_FAIL_OTHER" ]; then BASE_FAIL_OTHER=$N; cp /tmp/seed_base_retry.txt /tmp/seed_base.txt; fi
+done
 ( cd $DEMOPKG && go test -vet=off -count=1 -run "^($DEMORUN)\$" . 2>&1 | tail -3 ) > /tmp/seed_demo_with.txt
 WITH=$(grep -c "^FAIL\|--- FAIL" /tmp/seed_demo_with.txt)
 git apply -R $PATCH
